@@ -25,9 +25,11 @@ Operations outside that theorem, and why:
   * fetch (`ReadBatchWith`/`Batch`): `fetch_aligned_or_closed`, for every message-set reader that conserves bytes (the
     hypothesis is discharged for the reader stack of message_reader.go: `stackBody_conserves`); unconditional since the
     fix C11-D32 (`fetch_at_watermark_counterexample` keeps the unfixed shape).
-  * apiVersions: no `expectZeroSize`, no close on error in the Go code, so nothing can be said about arbitrary bytes;
-    `apiVersions_aligned_wf`: on every well-formed v0 frame (any error code, any number of entries, anything after
-    the frame) the result is ok / that kafka error and exactly the frame is consumed.
+  * apiVersions: inside the main theorems since the fix C11-D33 (`expectZeroSize` and close on non-kafka errors, both
+    regenerated; before it nothing could be said about arbitrary bytes: `apiVersions_trailing_counterexample`);
+    `apiVersions_aligned_wf` adds that on every well-formed v0 frame (any error code, any number of entries, anything
+    after the frame) the result is ok / that kafka error and exactly the frame is consumed — the count of entries is
+    checked before the loop (`.arrB 6`, regenerated from `arrSize < 0 || int(arrSize) > size/6`).
 The D2 shape (no drain) is kept as `d2_regression_counterexample`: the theorem is false for it.
 -/
 import KafkaVerif.Lemmas.ConnOps
@@ -584,7 +586,7 @@ theorem iter_entries (es : List (Bytes × Bytes × Bytes)) (h : EntriesWF es) (r
     rw [h2]
     simp [Ctx.errs]
 
-/-- ApiVersions v0 (conn.go ApiVersions, no expectZeroSize): on every well-formed frame — any error code, any number
+/-- ApiVersions v0 (conn.go ApiVersions): on every well-formed frame — any error code, any number
 of entries, anything after the frame — the result is ok / that kafka error and exactly the frame is consumed. -/
 theorem apiVersions_aligned_wf (topic err cnt rest : Bytes) (es : List (Bytes × Bytes × Bytes))
     (he : err.length = 2) (hc : cnt.length = 4) (hcv : beInt cnt = es.length) (hes : EntriesWF es) :
@@ -602,10 +604,36 @@ theorem apiVersions_aligned_wf (topic err cnt rest : Bytes) (es : List (Bytes ×
   have hsz : 2 + (4 + 6 * es.length) - 2 - 4 = 6 * es.length + 0 := by omega
   rw [hsz]
   rw [h1]
-  simp only [Bool.false_and, Bool.false_eq_true, ↓reduceIte, Post.eval, h2]
+  have hb : ¬ ((es.length : Int) < 0 ∨ (es.length : Int) > ((6 * es.length + 0) / 6 : Nat)) := by omega
+  rw [if_neg hb]
+  simp only [Nat.add_zero, not_true_eq_false, and_false, ↓reduceIte, Post.eval, h2]
   by_cases hz : beInt err = 0
   · simp [hz, Ctx.errs]
   · simp [hz, Ctx.errs]
+
+/-- ApiVersions as it was before the fix C11-D33: no `expectZeroSize`, Conn kept on every error -/
+def apiVersionsUnfixed : OpSpec :=
+  { parse := fun _ => Gen.ConnLegacy.apiVersionsParseGen, drain := false, expectZero := false, post := .firstErr [], closeOnErr := false }
+
+/-- an ApiVersions v0 response (request 1) with one entry and 4 more bytes in the frame -/
+def avFrame : Bytes := [0,0,0,20, 0,0,0,1] ++ [0,0, 0,0,0,1, 0,3, 0,0, 0,9] ++ [7,7,7,7]
+
+/-- C11-D33, the unfixed shape: ok, Conn kept, 4 bytes of the frame left in the stream → the next operation reads
+mid-frame (io.ErrNoProgress); and a cut entry list: error, Conn kept and misaligned all the same -/
+theorem apiVersions_trailing_counterexample :
+    (connDo apiVersionsUnfixed 0 [] ⟨avFrame ++ d2Next, 1, false⟩).1 = .ok ∧
+    (connDo apiVersionsUnfixed 0 [] ⟨avFrame ++ d2Next, 1, false⟩).2 = ⟨[7,7,7,7] ++ d2Next, 2, false⟩ ∧
+    (connDo (simpleOp "heartbeat" Gen.ConnLegacy.heartbeatResponseV0) 0 []
+        (connDo apiVersionsUnfixed 0 [] ⟨avFrame ++ d2Next, 1, false⟩).2).1 = .fail (.other "io.ErrNoProgress") ∧
+    (connDo apiVersionsUnfixed 0 [] ⟨[0,0,0,12, 0,0,0,1, 0,0, 0,0,0,1, 0,3] ++ d2Next, 1, false⟩).2.closed = false := by
+  decide
+
+/-- the same frames through the current (regenerated) operation: an error and the Conn is closed -/
+theorem apiVersions_fixed_example :
+    ((specOf "apiVersions").map fun o => ((connDo o 0 [] ⟨avFrame ++ d2Next, 1, false⟩).1 matches .fail _,
+        (connDo o 0 [] ⟨avFrame ++ d2Next, 1, false⟩).2.closed,
+        (connDo o 0 [] ⟨[0,0,0,12, 0,0,0,1, 0,0, 0,0,0,1, 0,3] ++ d2Next, 1, false⟩).2.closed)) = some (true, true, true) := by
+  decide
 
 /-- a well-formed one-partition list-offsets error frame (error 3 = UnknownTopicOrPartition): aligned -/
 def listOffsets1 : Bytes :=
